@@ -22,7 +22,7 @@ RULE = ("Random interleavings (5-80 operations) of quotes and discontinuations o
         "contains a discontinuation followed by a quote for the same contract, or a chain-addressed quote after a roll.")
 ASSUMPTIONS = ["a quote is 'accepted' iff its book is alive; rejected quotes must not be appended to the history"]
 REQUIRED = ["C14:price", "C14:alive", "C14:history", "C14:sides", "C14:chain-key-is-lead", "C14:string-key-same-book", "C14:vectors"]
-REQUIRED_CATS = ["refused-query-then-carry-on", "late-print-stamped-before-discontinuation", "chain-quote-built-before-roll", "quote-type:int", "quote-type:npint", "quote-type:f32", "chain-from-unsorted-list", "quote:one-side-only", "query:sparse", "query:all-keys-every-op", "op:disc", "op:chainq", "op:strq", "quote-after-death", "chain-after-roll"]
+REQUIRED_CATS = ["chain-from-explicit-subset-plus-class", "refused-query-then-carry-on", "late-print-stamped-before-discontinuation", "chain-quote-built-before-roll", "quote-type:int", "quote-type:npint", "quote-type:f32", "chain-from-unsorted-list", "quote:one-side-only", "query:sparse", "query:all-keys-every-op", "op:disc", "op:chainq", "op:strq", "quote-after-death", "chain-after-roll"]
 TECHNIQUE = "runtime monitoring: executable reference model (dict of books) compared after every operation of generated histories"
 LEVEL_TEXT = ("Exploration: history + executable model. Every generated quote/discontinuation history is replayed against a small "
               "deterministic model and every observable of every book is compared after each operation.")
@@ -40,13 +40,25 @@ def case(ctx, i, tier):
     AbstractContract.now = datetime.min
     ch = FutureChain(fcls, "2019-01", "2021-12")
     ch1 = FutureChain(fcls, "2019-01", "2021-12", month=1)     # second-month chain over the same contracts
+    members = list(ch.contracts)
     if rng.random() < 0.5:
         listed = list(ch.contracts)
-        rng.shuffle(listed)
-        ch = FutureChain(contracts=listed)                      # same chain given as an unsorted explicit list
+        if rng.random() < 0.4:
+            # a chain over a SUBSET of the listed expiries (e.g. a semi-annual roll), given explicitly - together with
+            # the class and span arguments, which are then unnecessary: the explicit list is the chain
+            listed = listed[::2]
+            members = list(listed)
+            rng.shuffle(listed)
+            ch = FutureChain(fcls, "2019-01", "2021-12", contracts=listed) if rng.random() < 0.5 else FutureChain(future_cls=fcls, contracts=listed)
+            ctx.cat("chain-from-explicit-subset-plus-class")
+        else:
+            rng.shuffle(listed)
+            ch = FutureChain(contracts=listed)                  # same chain given as an unsorted explicit list
         ctx.cat("chain-from-unsorted-list")
+    ctx.check("C14:chain-members-as-given", len(ch.contracts) == len(members) and all(a is b for a, b in zip(ch.contracts, members)),
+              got=[c.symbol for c in ch.contracts][:8], want=[c.symbol for c in members][:8])
     objs = {"A": ETF("A"), "B": Stock("B"), "I": Index("I"), "SPY": ETF("SPY")}
-    for c in ch.contracts:
+    for c in ch1.contracts:
         objs[c.symbol] = c
     ex = Exchange()
     model = {}
@@ -72,7 +84,7 @@ def case(ctx, i, tier):
         if t > datetime(2020, 8, 1):
             t = datetime(2020, 8, 1)
         AbstractContract.now = t
-        lead = [c for c in ch.contracts if c.last_trading_date > t][0]
+        lead = [c for c in members if c.last_trading_date > t][0]
         if lead0 is None:
             lead0 = lead
         op = rng.choice(["q", "q", "q", "disc", "chainq", "strq"])
@@ -179,7 +191,7 @@ def case(ctx, i, tier):
                       and same(lob.acq_price(0), (mm["ask"] + mm["bid"]) / 2)
                       and same(lob.liq_price(0), (mm["ask"] + mm["bid"]) / 2), symbol=s_)
         ctx.check("C14:chain-key-is-lead", ex[ch] is ex[lead] and ex[ch] is ex[lead.symbol], lead=lead.symbol, now=t)
-        second = [c for c in ch.contracts if c.last_trading_date > t][1]
+        second = [c for c in ch1.contracts if c.last_trading_date > t][1]
         ctx.check("C14:chain-key-is-lead", ex[ch1] is ex[second], second=second.symbol, now=t, offset=1)
         keys = [o for _, o in subset] or list(objs.values())[:1]
         if rng.random() < 0.3:
